@@ -7,7 +7,7 @@ mod c04;
 mod c05;
 mod c06;
 mod c07;
-mod c08;
+use vsim::c08;
 mod c10;
 
 #[global_allocator]
